@@ -22,7 +22,23 @@ STY = {"S", "T", "Y"}
 
 def run(ck, prog):
     from props.common import check_memos
-    ck.attempt(check_memos, ck, prog)
+
+    def decide(r):
+        """a result table in the phosphostate enumeration: the k-th flag of every status tuple belongs to the k-th stored site (obligation
+        ALG-states / flags-to-sites below), so the result depends on the ORDER of self.phosphosites, not only on the set of sites"""
+        from lcsa.bind import inline_locals
+        st = r["site"]
+        if st.fnode.name != "calculateKappaDistOfPhosphoStates" or st.scope != "object":
+            return None
+        g = st.mod.funcs.get((st.cls + "." if st.cls else "") + st.fnode.name)
+        k = unparse(inline_locals(g, st.key)).replace(" ", "")
+        if k in ("tuple(self.phosphosites)", "str(self.phosphosites)", "repr(self.phosphosites)", "tuple(list(self.phosphosites))"):
+            return True
+        if k in ("frozenset(self.phosphosites)", "tuple(sorted(self.phosphosites))", "tuple(sorted(set(self.phosphosites)))", "len(self.phosphosites)",
+                 "frozenset(set(self.phosphosites))", "tuple(set(self.phosphosites))"):
+            return {"key": k, "forgets": "the order in which the sites were stored", "needed_by": "status tuples pair flags with sites by position"}
+        return None
+    ck.attempt(check_memos, ck, prog, decide_lossy=decide)
     ck.explanation = (
         "The body of the setter's loop is enumerated into a decision table for one generic requested site (an integer atom), "
         "with `residue at that index is S/T/Y` and `index already stored` as uninterpreted booleans and the append recorded as "
@@ -174,10 +190,21 @@ def _effects(ck, prog):
     ok = {k: sorted(v) for k, v in c.self_writes.items()} == {"phosphosites": ["rebind"]} and len(asg) == 1 and unparse(asg[0].value) in ("[]", "list()")
     ck.ob("EFF", SEQ_PATH + ":Sequence.clear_phosphosites", ok, expected="self.phosphosites = []  and nothing else", found=unparse(g.node.body[-1]), slot="clear",
           where=g.loc())
+    STATE = {"phosphosites", "seq", "len", "chargePattern"}
     for meth in ("get_phosphosites", "get_phosphosequence", "kappa_at_maxPhos", "calculateKappaDistOfPhosphoStates", "get_STY_residues"):
         sm = E.of(SEQ, "Sequence." + meth)
-        bad = {k: sorted(v) for k, v in sm.self_writes.items() if k not in ("dmax", "seqDeltaMax")}
-        ck.ob("EFF", SEQ_PATH + ":Sequence." + meth, not bad, expected="no write besides the delta-max memo", found=bad, slot="read-only")
+        writes = {k: sorted(v) for k, v in sm.self_writes.items() if k not in ("dmax", "seqDeltaMax")}
+        bad = {k: v for k, v in writes.items() if k.split(".")[0] in STATE}
+        other = sorted(k for k in writes if k.split(".")[0] not in STATE)
+        # a field of its own that a query writes and reads back (a result cache) is not this property's state; whether it can go stale is a
+        # memo question (MEMO-KEY / C15), not decided by this rule
+        if other and not bad:
+            from lcsa import memo as memo_mod
+            res = memo_mod.analyse(prog, E)
+            verdicts = {o: [x["verdict"] for x in res if x["site"].scope == "object" and x["site"].table == o.split(".")[0]] for o in other}
+            # result tables: MEMO-KEY (run above, with this property's order-sensitivity decision) has the verdict; anything else is not judged here
+            ck.shape(all(v for v in verdicts.values()), "%s writes new field(s) %s besides the phosphosite state; not result tables MEMO-KEY recognises" % (meth, other))
+        ck.ob("EFF", SEQ_PATH + ":Sequence." + meth, not bad, expected="no write to the phosphosite list, the sequence or its charge pattern", found=bad or writes, slot="read-only")
 
 
 def _phos_aliases(f):
@@ -342,8 +369,19 @@ def _distribution(ck, prog):
     rets = [n for n in ast.walk(h.node) if isinstance(n, ast.Return) and n.value is not None]
     ck.shape(len(rets) >= 1, "phosphostate enumeration returns something", h.loc())
     lst = unparse(apps[0].func.value)
-    ck.ob("ALG-tuple", c, all(unparse(r.value).replace(" ", "") in (lst, "list(%s)" % lst) for r in rets) and len(rets) == 1, expected="returns the list of state tuples, computed afresh",
-          found=[unparse(r.value) for r in rets], slot="returns", where=h.loc())
+    # what is returned: the list just built (or a copy of it); a return of an entry of a result table is a memo hit, judged by MEMO-KEY
+    own, memo_hits, other = [], [], []
+    for r in rets:
+        t = unparse(r.value).replace(" ", "")
+        inner = r.value.args[0] if isinstance(r.value, ast.Call) and getattr(r.value.func, "id", "") in ("list", "tuple") and len(r.value.args) == 1 else r.value
+        if t in (lst, "list(%s)" % lst, "%s[:]" % lst, "%s.copy()" % lst):
+            own.append(r)
+        elif isinstance(inner, ast.Subscript) and is_self_attr(inner.value):
+            memo_hits.append(r)
+        else:
+            other.append(r)
+    ck.shape(not other and len(own) >= 1, "phosphostate enumeration: returns the list it built (returns found: %s)" % [unparse(r.value) for r in rets], h.loc())
+    ck.ob("ALG-tuple", c, len(own) >= 1, expected="returns the list of state tuples", found=[unparse(r.value) for r in rets], slot="returns", where=h.loc())
 
 
 def _void_api(ck, prog):
